@@ -1,0 +1,40 @@
+//go:build verif
+
+// Contracts for the verifier in /verif (comment-only; compiled only with -tags verif, adds no code).
+package decoder
+
+// ---- result orders are by source position (C10, C13, C14): the comparators compare what the
+// ---- properties name (file, then start byte)
+//@ contract (*decoder.PathDecoder).symbolsForBody$1 (i, j) (less)
+//@   requires 0 <= i && i < len(symbols) && 0 <= j && j < len(symbols)
+//@   ensures [C14] less == (symbols[i].Range().Start.Byte < symbols[j].Range().Start.Byte)
+//@ contract (*decoder.PathDecoder).SemanticTokensInFile$1 (i, j) (less)
+//@   requires 0 <= i && i < len(tokens) && 0 <= j && j < len(tokens)
+//@   ensures [C13] less == (tokens[i].Range.Start.Byte < tokens[j].Range.Start.Byte)
+//@ contract (*decoder.PathDecoder).CollectReferenceOrigins$1 (i, j) (less)
+//@   requires 0 <= i && i < len(refOrigins) && 0 <= j && j < len(refOrigins)
+//@   ensures [C10] less == ite(refOrigins[i].OriginRange().Filename != refOrigins[j].OriginRange().Filename, refOrigins[i].OriginRange().Filename < refOrigins[j].OriginRange().Filename, refOrigins[i].OriginRange().Start.Byte < refOrigins[j].OriginRange().Start.Byte)
+
+// ---- C07: what may still be declared
+//@ contract decoder.isAttributeDeclarable (body, name, attr) (ok)
+//@   requires body != nil && attr != nil
+//@   ensures [C07] ok == (!(attr.IsComputed && !attr.IsOptional) && !haskey(body.Attributes, name))
+//@   loop 1 invariant [C07] !(attr.IsComputed && !attr.IsOptional) && forallkey(k, body.Attributes, implies(visited(k), k != name))
+//@ contract decoder.isBlockDeclarable (body, blockType, bSchema) (ok)
+//@   requires body != nil && bSchema != nil
+//@   ensures [C07] implies(bSchema.MaxItems == 0, ok)
+//@   ensures [C07] implies(bSchema.MaxItems != 0, ok == (itemCount < bSchema.MaxItems))
+//@   loop 1 invariant [C07] bSchema.MaxItems != 0 && itemCount < bSchema.MaxItems
+//@   loop 1 iter [C07] itemCount == old(itemCount) + ite(block.Type == blockType, 1, 0)
+
+// ---- byte recovery helpers (C01 totality, C20 clamp rule)
+//@ contract decoder.recoverLeftBytes (b, pos, f) (out)
+//@   requires 0 <= pos.Byte && pos.Byte <= len(b) && f != nil
+//@   loop 1 invariant 0 <= offset && offset <= pos.Byte && pos.Byte <= len(b)
+//@   loop 1 decreases offset
+//@ contract decoder.recoverRightBytes (b, pos, f) (out)
+//@   requires 0 <= pos.Byte && pos.Byte <= len(b) && f != nil
+//@   loop 1 invariant pos.Byte <= offset && offset <= len(b)
+//@   loop 1 decreases len(b) - offset
+//@ contract (*decoder.PathDecoder).hoverContentForLabel (d, i, block, bSchema) (content)
+//@   requires block != nil && bSchema != nil && 0 <= i && i < len(bSchema.Labels) && i < len(block.Labels)
